@@ -505,7 +505,20 @@ impl Prop for P {
                 }
             }
         }
+        // long keys: shared prefixes of 7, 8, 9 and 16 bytes followed by suffixes of different lengths, so that
+        // any ordering shortcut on a key prefix, a length or a machine word is exercised
+        let mut long_pool: Vec<Vec<u8>> = vec![];
+        for plen in [7usize, 8, 9, 16, 33] {
+            let prefix: Vec<u8> = (0..plen).map(|i| b'1' + (i % 9) as u8).collect();
+            for sfx in [&b""[..], b"a", b"aa", b"ab", b"b", b"a\0", b"\0", b"\xff", b"\xff\xff", b"aaaaaaaaa", b"b\0\0"] {
+                let mut k = prefix.clone();
+                k.extend_from_slice(sfx);
+                long_pool.push(k);
+            }
+        }
+        let short_pool = pool.clone();
         for _ in 0..nrand {
+            let pool: &Vec<Vec<u8>> = if rng.chance(1, 3) { stats.bump("random_long_key_pool"); &long_pool } else { &short_pool };
             let k = rng.range(1, 6);
             let zero = rng.chance(1, 4);
             let vmax = if zero { 0 } else { *rng.pick(&[1u64, 3, 1000, u64::MAX - 1]) };
